@@ -78,9 +78,9 @@ def c03_filter(ctx):
 def _cfg_fire(tier):
     out = []
     K = 12 if tier == 'quick' else 40
-    plan = [('A', 100.0, 'none'), ('A', 100.0, 'two'), ('B', 60.0, 'left'), ('C', 100.0, 'tail'), ('A', 2.0, 'tail30')] if tier == 'quick' else \
+    plan = [('A', 100.0, 'none'), ('A', 100.0, 'two'), ('B', 60.0, 'left'), ('C', 100.0, 'tail'), ('A', 2.0, 'tail30'), ('D', 20.0, 'none')] if tier == 'quick' else \
         [('A', 100.0, w) for w in ('none', 'head', 'tail', 'left', 'two')] + [('B', 60.0, 'left'), ('B', 60.0, 'none'), ('C', 100.0, 'tail'),
-                                                                           ('C', 100.0, 'head'), ('A', 30.0, 'two'), ('A', 0.5, 'none'), ('A', 2.0, 'tail30'), ('A', 0.5, 'tail30')]
+                                                                           ('C', 100.0, 'head'), ('A', 30.0, 'two'), ('A', 0.5, 'none'), ('A', 2.0, 'tail30'), ('A', 0.5, 'tail30'), ('D', 20.0, 'none'), ('D', 6.0, 'head')]
     for (c, step, wind) in plan:
         rmax = K * step / 2 * 0.95
         shards = 4 if tier == 'quick' else 16
@@ -114,7 +114,7 @@ def _cfg_fire(tier):
 @harness('C03.fire', 'C03', configs=_cfg_fire, functions=FUNCS, cost=20, engine_opts={'div_check': False, 'nl_axioms_in_feasibility': False},
          must_reach=['check:one_row_per_multiple', 'check:row_distance_is_multiple', 'check:strictly_increasing', 'check:muzzle_row',
                      'check:default_step_gives_11_rows', 'check:time_step_spacing'],
-         bounds='real Calculator.fire on carriers A (.308 G7, none/two winds), B (G1 1250 fps, cross wind), C (G1 930 m/s at 30 deg, tail wind) with a coarse '
+         bounds='real Calculator.fire on carriers A (.308 G7, none/two winds; 2 ft step with a 30 mph tail wind), B (G1 1250 fps, cross wind), C (G1 930 m/s at 30 deg, tail wind), D (300 fps lofted at 50 deg) with a coarse '
                 'integration step so that the horizon is K <= 12 (quick) / 40 (thorough) integration steps; symbolic range R in (0, Rmax] and record step '
                 'S in [max step, Rmax] as quantity in ft / m / yd or bare float; every cell of the (R, S) plane; also default step and time step',
          assumptions=['floats as reals for the symbolic record arithmetic (row distance = k*S exactly over the reals; the physics runs in true doubles)'],
@@ -122,7 +122,7 @@ def _cfg_fire(tier):
 def c03_fire(ctx, carrier, step_ft, wind, rlo, rhi, mode, unit, slo=None, shi=None):
     p = pybc()
     U = p.Unit
-    extra = {'relative_deg': 30.0} if carrier == 'C' else {}
+    extra = {'relative_deg': 30.0} if carrier == 'C' else ({'relative_deg': 50.0} if carrier == 'D' else {})     # D: slow lofted shot (the path flattens quickly)
     calc, shot = carriers.make(carrier, step_ft, wind, **extra)
     if mode == 'time':
         # only the time step is symbolic here (range and record step concrete): cells of the tau axis
